@@ -58,7 +58,7 @@ type Case struct {
 	Devs []encenv.Placement `json:"devs"`
 	Big  bool               `json:"big_stream,omitempty"` // the streamed 65 538-segment document (Len is ignored)
 	// behaviour of the collaborators (S5) and size of the header (S6); KeyOpt must be 0
-	WrapMode   int  `json:"wrap_mode,omitempty"`   // 0 pure; 1 zeroes its argument after wrapping; 2 overwrites its argument with the wrapped key (in place, returning the same slice, where the sizes agree); 3 identity wrap returning its argument
+	WrapMode   int  `json:"wrap_mode,omitempty"`   // 0 pure; 1 zeroes its argument after wrapping; 2 overwrites its argument with the wrapped key (in place, returning the same slice, where the sizes agree); 3 identity wrap returning its argument; 4 pure, but first appends 4 bytes to its argument (a scratch use of whatever spare capacity the slice it was handed has)
 	UnwrapMode int  `json:"unwrap_mode,omitempty"` // 0 pure; 1 the caller zeroes the slice its unwrap function returned once Decrypt has returned; 2 the caller overwrites it with another key
 	WipeLate   bool `json:"wipe_late,omitempty"`   // the caller yields (runtime.Gosched) before wiping
 	WFKLen     int  `json:"wfk_len,omitempty"`     // the vault returns an envelope of this many bytes (the wrapped key followed by padding)
@@ -70,7 +70,7 @@ type Case struct {
 // header must not be bigger than 64KB", len > SegmentSize is refused).
 const MaxHeader = 64 << 10
 
-var wrapModeNames = []string{"pure", "scrubs-argument", "overwrites-argument", "identity-returning-argument"}
+var wrapModeNames = []string{"pure", "scrubs-argument", "overwrites-argument", "identity-returning-argument", "appends-to-argument"}
 var unwrapModeNames = []string{"pure", "caller-zeroes-returned-slice", "caller-overwrites-returned-slice"}
 
 func longName(n int) string {
@@ -218,6 +218,11 @@ func runCase(c *Case, record bool) (masks [][]encenv.Mask, fails []failure) {
 					return nil, nil, fmt.Errorf("wrap: no key named %q", name)
 				}
 				return plain, nil, nil // the very slice that came in
+			}
+			if c.WrapMode == 4 {
+				// builds "key || context" the lazy way: append writes into the
+				// spare capacity of the slice it was handed, if it has any
+				_ = append(plain, "4byt"...)
 			}
 			w, _, err := pureWrap(plain, alg, name, nonce)
 			if err != nil {
@@ -423,7 +428,7 @@ func run(r *enumx.Run, replay *enumx.ReplayCase) {
 		return
 	}
 
-	r.Rule("each evaluation is one complete Encrypt->Decrypt pipeline on the real code with all three oracles (round trip; README layout; reference implementation reads kit's document / kit reads the reference's document written with the manifest members in the opposite order). S1: full product cipher{unset,AES-GCM,CHACHA20-POLY1305} x 8 key-wrap configurations (5 algorithms, 2 aliases, RSA-4096) x 5 key-name options x 14 plaintext lengths x 2 directions. S2: uniform chunking policies (source chunk {fill,1,7,4096,65535,65536} x consumer buffer {big,1,7,4096}) for each pipeline half. S2h: the ciphertext source delivers uniform frames of headerLength+k bytes, k in -2..3, and 2*headerLength+1. S3: every set of <= bound deviations {0 bytes,1 byte,n-1 bytes,stop at segment boundary,data+EOF, Read ends at header end+k for k in -1..3 (ciphertext source) | 1-byte buffer,7-byte buffer} placed on the calls of the four environments, generated once each in (environment, call index) order from the applicability recorded in the parent run. S5: wrap functions that scrub / overwrite / return the key buffer they were given and callers that zero or overwrite the slice their unwrap function returned right after Decrypt returns (immediately or after one yield; sequential under GOMAXPROCS(1)). S6: header lengths B-1,B,B+1 for B in {512..32768}, 65535, 65536 and 65537 (Encrypt must refuse or still round-trip) reached by a long wrapped-key envelope or a long key name. S4 (thorough): one streamed 65538-segment document in both directions, so that segment counters beyond 65535 occur. Every evaluation is a distinct case by construction; none is trivial (each runs the full pipeline).")
+	r.Rule("each evaluation is one complete Encrypt->Decrypt pipeline on the real code with all three oracles (round trip; README layout; reference implementation reads kit's document / kit reads the reference's document written with the manifest members in the opposite order). S1: full product cipher{unset,AES-GCM,CHACHA20-POLY1305} x 8 key-wrap configurations (5 algorithms, 2 aliases, RSA-4096) x 5 key-name options x 14 plaintext lengths x 2 directions. S2: uniform chunking policies (source chunk {fill,1,7,4096,65535,65536} x consumer buffer {big,1,7,4096}) for each pipeline half. S2h: the ciphertext source delivers uniform frames of headerLength+k bytes, k in -2..3, and 2*headerLength+1. S3: every set of <= bound deviations {0 bytes,1 byte,n-1 bytes,stop at segment boundary,data+EOF, Read ends at header end+k for k in -1..3 (ciphertext source) | 1-byte buffer,7-byte buffer} placed on the calls of the four environments, generated once each in (environment, call index) order from the applicability recorded in the parent run. S5: wrap functions that scrub / overwrite / return / append to the key buffer they were given and callers that zero or overwrite the slice their unwrap function returned right after Decrypt returns (immediately or after one yield; sequential under GOMAXPROCS(1)). S6: header lengths B-1,B,B+1 for B in {512..32768}, 65535, 65536 and 65537 (Encrypt must refuse or still round-trip) reached by a long wrapped-key envelope or a long key name. S4 (thorough): one streamed 65538-segment document in both directions, so that segment counters beyond 65535 occur. Every evaluation is a distinct case by construction; none is trivial (each runs the full pipeline).")
 
 	// S3 is cheap (a few thousand pipelines), so both tiers take all placements
 	// of <= 2 deviations; quick restricts S2/S3 to the boundary lengths.
@@ -460,7 +465,7 @@ func run(r *enumx.Run, replay *enumx.ReplayCase) {
 			for _, wc := range []struct {
 				kw   string
 				mode int
-			}{{chunkKW, 0}, {chunkKW, 1}, {chunkKW, 2}, {"A256CBC-NOPAD", 0}, {"A256CBC-NOPAD", 1}, {"A256CBC-NOPAD", 2}, {"RSA-OAEP-256/2048", 1}, {chunkKW, 3}} {
+			}{{chunkKW, 0}, {chunkKW, 1}, {chunkKW, 2}, {"A256CBC-NOPAD", 0}, {"A256CBC-NOPAD", 1}, {"A256CBC-NOPAD", 2}, {"RSA-OAEP-256/2048", 1}, {chunkKW, 3}, {chunkKW, 4}, {"RSA-OAEP-256/2048", 4}} {
 				for _, u := range uws {
 					s5 = append(s5, &Case{Len: n, Cipher: ci, KW: wc.kw, WrapMode: wc.mode, UnwrapMode: u.mode, WipeLate: u.late})
 					if wc.mode == 0 || wc.mode == 3 {
